@@ -33,7 +33,7 @@ func maxDim() int {
 
 func Gen(t *rapid.T) *Case {
 	o := gen.ImageOpts{MaxDim: maxDim(), MaxArea: maxDim() * maxDim(), Comps: []int{1, 3}, PMin: 8, PMax: 16, Signed: true,
-		Classes: []string{"noise", "noise", "twolevel", "gradient", "checker", "extremes", "sparse", "constant"}, LiteralMax: 16}
+		Classes: []string{"noise", "noise", "twolevel", "gradient", "checker", "extremes", "sparse", "constant", "lpgain"}, LiteralMax: 16}
 	im := gen.ImageGen(o).Draw(t, "img")
 	im.P = rapid.SampledFrom([]int{8, 12, 16}).Draw(t, "P")
 	if im.Pix != nil {
